@@ -1,4 +1,4 @@
-import Csverif.Proofs.HCache.OpsMain
+import Csverif.Proofs.HCache.RefineAll
 /-
 C19 — the hierarchical path/id cache stays coherent under any operation sequence.
 Model: Model/HCache.lean (heap of nodes + separate id map, branch by branch from
@@ -26,11 +26,13 @@ Status of the design's statements
   ancestor of the target used to leave an unreachable node in the id map; the two former witnesses
   are now instances of the theorem (`insert_under_ancestor_repaired`, `set_oid_ancestor_repaired`)
   and their replays are `fixed:` entries re-checked on every run.
-* not proved (stretch goal of the design): refinement `hcache_refines_dict` to the plain dictionary
-  spec; the harness's search oracle compares against that dictionary instead.
+* refinement to the plain dictionary specification `path ↦ (type, id?)` (Model/HDict.lean), for *every*
+  public operation: `hcache_refines_dict_step`, `hcache_refines_dict_from`, `hcache_refines_dict`,
+  `lookups_agree_with_dictionary` (get_oid / get_type / get_path / listdir-as-a-set), under the guard
+  plus `opOidOk` (ids given to mkdir/create/update are None or truthy).
 -/
 namespace CS.HCache
-open CS.Path
+open CS.Path CS.HDict
 
 /-! ### the invariant in the property's own words -/
 
@@ -261,6 +263,87 @@ theorem rename_moves_subtree {c : Cfg} (g : CfgGood c) {s : HC} (hc : Coherent c
 /-- both mock-provider configurations satisfy the configuration guard -/
 theorem mock_cfg_good (cs : Bool) : CfgGood (mkCfg cs false) := mkCfg_good cs
 
+/-! ### refinement to the plain dictionary specification (Model/HDict.lean)
+
+`Abs s d` : the dictionary `d` answers every key path as the cache does (`dlook d = view s`, where
+`view s q` is the `(type, id?)` of the node reachable from the root along the keys `q`).
+The guard of the refinement is the guard of the coherence theorem plus: ids passed to
+mkdir/create/update are None or truthy (`opOidOk`; `set_oid` asserts it, the empty-string id is the one
+value the cache itself treats inconsistently). -/
+
+/-- **one step**: a guarded operation on a coherent cache has the specified outcome (ok, or the
+    ValueError / AssertionError of the argument checks) and re-establishes the abstraction relation -/
+theorem hcache_refines_dict_step {c : Cfg} (g : CfgGood c) {s : HC} {d : D} (hc : Coherent c s) (habs : Abs s d)
+    (hnf : NoFalsyV (view s)) (op : Op) (hg : opSafe c s op = true) (ho : opOidOk op = true) :
+    ResAgree (step c s op).2 (specStep c d op).2 ∧ Abs (step c s op).1 (specStep c d op).1 ∧
+      Coherent c (step c s op).1 ∧ NoFalsyV (view (step c s op).1) :=
+  refine_step g hc habs hnf op ((opSafe_iff g s op).1 hg) ((opOidOk_iff op).1 ho)
+
+/-- a sequence every operation of which satisfies both guards in the state it runs in -/
+def GuardedR (c : Cfg) : HC → List Op → Prop
+  | _, [] => True
+  | s, op :: ops => opSafe c s op = true ∧ opOidOk op = true ∧ GuardedR c (step c s op).1 ops
+
+def GuardedR.dec (c : Cfg) : (s : HC) → (ops : List Op) → Decidable (GuardedR c s ops)
+  | _, [] => isTrue trivial
+  | s, op :: ops => by
+    unfold GuardedR
+    exact @instDecidableAnd _ _ _ (@instDecidableAnd _ _ _ (GuardedR.dec c _ ops))
+
+instance (c : Cfg) (s : HC) (ops : List Op) : Decidable (GuardedR c s ops) := GuardedR.dec c s ops
+
+/-- the outcomes of the operations of a run, on the cache and on the dictionary -/
+def runResults (c : Cfg) : HC → List Op → List (Except Err Unit)
+  | _, [] => []
+  | s, op :: ops => (step c s op).2 :: runResults c (step c s op).1 ops
+
+def specResults (c : Cfg) : D → List Op → List SRes
+  | _, [] => []
+  | d, op :: ops => (specStep c d op).2 :: specResults c (specStep c d op).1 ops
+
+/-- the two outcome lists agree position by position -/
+def AllAgree : List (Except Err Unit) → List SRes → Prop
+  | [], [] => True
+  | r :: rs, x :: xs => ResAgree r x ∧ AllAgree rs xs
+  | _, _ => False
+
+theorem hcache_refines_dict_from {c : Cfg} (g : CfgGood c) : ∀ (ops : List Op) (s : HC) (d : D),
+    Coherent c s → Abs s d → NoFalsyV (view s) → GuardedR c s ops →
+    Coherent c (run c s ops) ∧ Abs (run c s ops) (specRun c d ops) ∧ NoFalsyV (view (run c s ops)) ∧
+      AllAgree (runResults c s ops) (specResults c d ops) := by
+  intro ops
+  induction ops with
+  | nil => intro s d hc ha hn _; exact ⟨hc, ha, hn, trivial⟩
+  | cons op ops ih =>
+    intro s d hc ha hn hg
+    obtain ⟨r1, r2, r3, r4⟩ := hcache_refines_dict_step g hc ha hn op hg.1 hg.2.1
+    obtain ⟨a1, a2, a3, a4⟩ := ih _ _ r3 r2 r4 hg.2.2
+    exact ⟨a1, a2, a3, r1, a4⟩
+
+/-- **`hcache_refines_dict`**: after every guarded operation sequence (any length) the cache is abstracted
+    by the dictionary obtained by running the specification on the same sequence, and every operation
+    had the specified outcome -/
+theorem hcache_refines_dict {c : Cfg} (g : CfgGood c) (r : Oid) (hr : r ≠ 0) (ops : List Op)
+    (hg : GuardedR c (init r) ops) :
+    Abs (run c (init r) ops) (specRun c (HDict.init r) ops) ∧
+      AllAgree (runResults c (init r) ops) (specResults c (HDict.init r) ops) := by
+  obtain ⟨_, a2, _, a4⟩ := hcache_refines_dict_from g ops _ _ (coherent_initial c r hr) (abs_init r) (noFalsy_init r hr) hg
+  exact ⟨a2, a4⟩
+
+/-- **lookups agree with a plain dictionary model of what was inserted and not since invalidated** (the last
+    clause of the property): `get_oid`, `get_type`, `get_path` and `listdir` (as a set) of the cache after a
+    guarded sequence are those of the dictionary specification run on the same sequence -/
+theorem lookups_agree_with_dictionary {c : Cfg} (g : CfgGood c) (r : Oid) (hr : r ≠ 0) (ops : List Op)
+    (hg : GuardedR c (init r) ops) :
+    (∀ p, getOid c (run c (init r) ops) p = .ok (getOidD c (specRun c (HDict.init r) ops) p)) ∧
+    (∀ p, getType c (run c (init r) ops) none (some p) = .ok (getTypeD c (specRun c (HDict.init r) ops) p)) ∧
+    (∀ o, getPath c (run c (init r) ops) o = .ok ((getPathD (specRun c (HDict.init r) ops) o).map (canon c.sep))) ∧
+    (∀ p, ∃ l, listdir c (run c (init r) ops) none (some p) = .ok l ∧
+      ∀ a, a ∈ l ↔ hasChildD (specRun c (HDict.init r) ops) (pcomps c p) a = true) := by
+  obtain ⟨hc, ha, hn, _⟩ := hcache_refines_dict_from g ops _ _ (coherent_initial c r hr) (abs_init r) (noFalsy_init r hr) hg
+  exact ⟨fun p => getOid_refines g ha p, fun p => getType_refines g ha p, fun o => getPath_refines g hc ha hn o,
+    fun p => listdir_refines g hc ha p⟩
+
 /-! ### the guard's complement: kernel-checked witnesses (replayed on the real code on every run)
 
 Each witness runs the model on a concrete sequence from the initial cache (root id 9, case-sensitive
@@ -405,5 +488,8 @@ example : Guarded (mkCfg true false) (init 9) exampleOps ∧ Guarded (mkCfg fals
 
 example : Coherent (mkCfg false false) (run (mkCfg false false) (init 9) exampleOps) :=
   coherent_run_partial (mkCfg_good false) 9 (by decide) exampleOps (by decide +kernel)
+
+example : GuardedR (mkCfg true false) (init 9) exampleOps ∧ GuardedR (mkCfg false false) (init 9) exampleOps := by
+  decide +kernel
 
 end CS.HCache
